@@ -56,6 +56,55 @@ CHECKS = {
     note="Trusted: Kani, CBMC, cadical, libc's Rust CMSG_* functions as compiled. Buffers are ArrayVec<u8,24> (Vec roots make CBMC "
          "explore reallocation). Outside: the Framed Stream/Sink state machines (boxed futures + Buffer<B>: CBMC out of memory "
          "beyond one frame), BytesCodec, serde_json codec, Windows CMSG. Two genuine defects repaired (known_findings.json: fixed)."),
+ "C06": dict(
+    engine="kani (+ shim-loom for the cross-thread half)",
+    technique="bounded model checking of the compiled SharedFd code (Kani/CBMC); cross-thread half compiled with --cfg loom against "
+              "a sequential loom stand-in whose atomics/Arc/waker slot are preemption points: the solver chooses the interleaving",
+    category="proof",
+    text="Proof within bounds for SharedFd (the mechanism every file/socket/pipe handle and every in-flight operation shares): "
+         "unsync build: for 1..=2 other handles, re-clones, every placement of closer polls, plain drop or second close(), the "
+         "descriptor is dropped exactly once and only after every handle is gone, close() resolves at the first poll after the "
+         "last release and never before, and the closer's waker fires at the last release; try_unwrap succeeds iff unique. "
+         "sync build: under one solver-chosen preemption (second dropper or woken closer inside a handle drop) the descriptor is "
+         "never closed early or twice; the no-lost-wake-up clause FAILS there and is reported as known finding F9 (two schedules).",
+    design_ref="DESIGN.md §1 C06",
+    note="Trusted: Kani, CBMC, cadical; /verif/shim/loom (sequentially consistent Arc/atomics/AtomicWaker model) for the sync half. "
+         "Outside: descriptor-producing operations (accept/open/socket) under cancellation — they need real descriptors and a live "
+         "driver; > 1 preemption; weak memory. One genuine defect repaired (second close() lost wake-up)."),
+ "C01": dict(
+    engine="kani",
+    technique="bounded model checking of the compiled key/cancel/pop layer of compio-driver (Kani/CBMC) with the harness acting as a "
+              "contract-abiding adversarial driver through the __verif hook; CBMC's use-after-free/double-free checks plus drop counters",
+    category="proof",
+    text="Proof within bounds, above the driver: for an operation accepted for submission, its buffer is not dropped while either the "
+         "kernel's reference (returned only by the final completion) or the submitter's key exists — for cancel-before-completion, "
+         "completion-before-cancel, runtime (Proactor) drop before/after the key, in every order — and is dropped exactly once afterwards.",
+    design_ref="DESIGN.md §1 C01/C02/C05",
+    note="Conditional on the drivers honouring 'one leaked reference per accepted submission, returned by exactly one final completion': "
+         "iour/mod.rs, poll/mod.rs (FFI, HashMap, flume, kernel), zero-copy notification ordering, multishot, thread-pool FrozenKey and the "
+         "Submit futures are outside. Stub: resume_unwind_io = identity."),
+ "C02": dict(
+    engine="kani",
+    technique="bounded model checking of Proactor::pop/update_waker/Entry::notify/key.rs (Kani/CBMC), harness = driver via __verif hook, "
+              "solver-chosen completion order and results",
+    category="proof",
+    text="Proof within bounds, above the driver: pop is Pending until the driver's completion and then Ready exactly once with exactly the "
+         "driver's result (Ok(n) or OS error) and the submitted, tagged buffer; with two pending operations completed and popped in any "
+         "order nothing is swapped, duplicated or lost; the last registered waker of the right operation is woken exactly once.",
+    design_ref="DESIGN.md §1 C01/C02/C05",
+    note="Same conditions and exclusions as C01: the io_uring/polling drivers themselves (queue overflow, bursts, readiness order) are outside."),
+ "C05": dict(
+    engine="kani",
+    technique="bounded model checking of Proactor::cancel/cancel_token/register_cancel, cancel.rs and key.rs (Kani/CBMC), harness = driver "
+              "via __verif hook",
+    category="proof",
+    text="Proof within bounds, above the driver: cancelling a pending operation returns nothing and fabricates no result; cancelling after "
+         "completion yields the genuine result; a token cancels only its own operation, issues at most one cancellation, none after "
+         "completion or after the operation is gone, never keeps it alive; the neighbour operation is untouched and the genuine result "
+         "is never overwritten.",
+    design_ref="DESIGN.md §1 C01/C02/C05",
+    note="Promptness (the OS actually interrupting the operation) and the runtime-level routes (future drop, timeout combinators in "
+         "compio-runtime) are outside; same conditions as C01."),
 }
 
 NOT_APPLICABLE = {
@@ -120,7 +169,7 @@ def main():
         f.write("\n")
 
 
-HOOK_COMMITS = []
+HOOK_COMMITS = ["fe7f040"]
 
 if __name__ == "__main__":
     main()
